@@ -38,13 +38,13 @@ theorem InvC.forkPoint {s : TM} (h : InvC s) (p : Point) : InvC (forkPoint s p) 
 
 theorem startTask_closed (s : TM) (d : TaskDef) : (startTask s d).closed = s.closed := by
   unfold startTask
-  by_cases h : d.dbrps.isEmpty = true <;> by_cases h2 : (s.tasks d.id).isSome = true <;> simp [h, h2, newFork]
+  by_cases h : d.dbrps.isEmpty = true <;> by_cases h2 : s.isLive d.id = true <;> simp [h, h2, newFork]
 
 theorem startTask_sent (s : TM) (d : TaskDef) : (startTask s d).sentOnClosed = s.sentOnClosed := by
   unfold startTask
-  by_cases h : d.dbrps.isEmpty = true <;> by_cases h2 : (s.tasks d.id).isSome = true <;> simp [h, h2, newFork]
+  by_cases h : d.dbrps.isEmpty = true <;> by_cases h2 : s.isLive d.id = true <;> simp [h, h2, newFork]
 
-theorem startTask_nextEdge {s : TM} {d : TaskDef} (h : d.dbrps ≠ []) (hn : s.tasks d.id = none) :
+theorem startTask_nextEdge {s : TM} {d : TaskDef} (h : d.dbrps ≠ []) (hn : s.isLive d.id = false) :
     (startTask s d).nextEdge = s.nextEdge + 1 := by
   have : d.dbrps.isEmpty = false := by simpa using h
   simp [startTask, this, hn, newFork]
@@ -52,9 +52,9 @@ theorem startTask_nextEdge {s : TM} {d : TaskDef} (h : d.dbrps ≠ []) (hn : s.t
 theorem InvC.startTask {s : TM} (h : InvC s) (d : TaskDef) : InvC (Kap.C02.startTask s d) := by
   by_cases hd : d.dbrps = []
   · rw [startTask_nodbrp hd]; exact h
-  cases hx : s.tasks d.id with
-  | some e0 => rw [startTask_executing (by simp [hx])]; exact h
-  | none =>
+  cases hx : s.isLive d.id with
+  | true => rw [startTask_executing hx]; exact h
+  | false =>
   have hn := hx
   constructor
   · intro k id e hm
@@ -118,10 +118,45 @@ theorem InvC.stopTask {s : TM} (hi : Inv s) (h : InvC s) (id : String) : InvC (s
       · exact h.bound k' id e hk'
     · rw [stopTask_sent]; exact h.good
 
+theorem delFork_closed_mem {s : TM} {id : String} {e : Edge} (he : e ∈ (delFork s id).closed) :
+    e ∈ s.closed ∨ ∃ k, (id, e) ∈ s.forks k := by
+  simp only [delFork] at he
+  exact delForkLoop_closed id _ _ e he
+
+theorem InvC.delFork {s : TM} (hi : Inv s) (h : InvC s) (id : String) : InvC (Kap.C02.delFork s id) := by
+  constructor
+  · intro k id1 e hm hc
+    obtain ⟨hm', hne⟩ := (mem_delFork_forks hi id).mp hm
+    rcases delFork_closed_mem hc with hc | ⟨k', hk'⟩
+    · exact h.openE k id1 e hm' hc
+    · have h1 := hi.owner id1 e (hi.entry k id1 e hm').1
+      have h2 := hi.owner id e (hi.entry k' id e hk').1
+      exact hne (h1.symm.trans h2)
+  · intro k id1 e hm
+    rw [delFork_nextEdge]
+    exact h.bound k id1 e ((mem_delFork_forks hi id).mp hm).1
+  · intro e he
+    rw [delFork_nextEdge]
+    rcases delFork_closed_mem he with hc | ⟨k', hk'⟩
+    · exact h.fresh e hc
+    · exact h.bound k' id e hk'
+  · rw [delFork_sent]; exact h.good
+
 theorem InvC.startTaskFail {s : TM} (hi : Inv s) (h : InvC s) (d : TaskDef) : InvC (Kap.C02.startTaskFail s d) := by
-  cases hx : s.tasks d.id with
-  | none => rw [startTaskFail_eq hx]; exact (h.startTask d).stopTask (hi.startTask hx) d.id
-  | some e => rw [startTaskFail_executing (by simp [hx])]; exact h
+  by_cases hd : d.dbrps = []
+  · have : Kap.C02.startTaskFail s d = s := by simp [Kap.C02.startTaskFail, hd]
+    rw [this]; exact h
+  cases hl : s.isLive d.id with
+  | true => rw [startTaskFail_executing hl]; exact h
+  | false =>
+    rw [startTaskFail_eq hd hl]
+    have h1 := (h.startTask d).delFork (hi.startTask hl) d.id
+    exact ⟨h1.openE, h1.bound, h1.fresh, h1.good⟩
+
+theorem foldl_delFork_invC (l : List String) : ∀ s : TM, Inv s → InvC s → InvC (l.foldl Kap.C02.delFork s) := by
+  induction l with
+  | nil => intro s _ hc; exact hc
+  | cons id rest ih => intro s hi hc; exact ih _ (hi.delFork id) (hc.delFork hi id)
 
 theorem forkBatch_invC {db rp : String} (pts : List RawPoint) :
     ∀ s : TM, InvC s → InvC (pts.foldl (fun s r => forkPoint s (mkPoint db rp r)) s) := by
@@ -142,6 +177,7 @@ theorem invC_fold (ops : List Op) : ∀ (s : TM), Inv s → InvC s → InvC (ops
     | startfail d => exact hc.startTaskFail hi d
     | stop id => exact hc.stopTask hi id
     | delete id => exact hc.stopTask hi id
+    | drain => exact foldl_delFork_invC _ s hi hc
     | write db rp pts => exact forkBatch_invC pts s hc
 
 theorem run_invC (drp : String) (ops : List Op) : InvC (run drp ops) :=
